@@ -134,3 +134,10 @@ Definition rmv_make (xs ss : list Q) : option rmv :=
     (uncertainty)^2 = k^2 * uncertainty^2 *)
 Definition lin_value (k c : Q) (r : rmv) : Q := k * r_value r + c.
 Definition lin_err_sq (k : Q) (r : rmv) : Q := k * k * r_err_sq r.
+
+(** Monte Carlo propagation (MonteCarloEvaluator.__compute_samples / _generate_random_data_set): the data set
+    of a source measurement is  offsets * measurement.error + measurement.value  -- the uncertainty and value
+    IN USE, not the raw-data standard deviation -- and the formula is evaluated on the data sets.
+    [v], [e]: value and uncertainty in use; [o]: one standard-normal offset.  d = k * a + c and d = a * a *)
+Definition mc_lin (k c v e o : Q) : Q := k * (o * e + v) + c.
+Definition mc_sq (v e o : Q) : Q := (o * e + v) * (o * e + v).
